@@ -95,21 +95,21 @@ pub fn rr() -> &'static mut RrWorld {
     unsafe { &mut RR }
 }
 
-fn headers(which: u8) -> Option<HashMap<String, String>> {
+fn headers(which: u8) -> Option<HashMap<selium_protocol::HeaderKey, String>> {
     let mut h = HashMap::new();
     match which {
         0 => return None,
         1 => {}
         2 => {
-            h.insert("req_id".to_owned(), "5".to_owned());
+            h.insert("req_id".into(), "5".to_owned());
         }
         3 => {
             // a requestor trying to forge its origin
-            h.insert("cid".to_owned(), "1".to_owned());
-            h.insert("req_id".to_owned(), "5".to_owned());
+            h.insert("cid".into(), "1".to_owned());
+            h.insert("req_id".into(), "5".to_owned());
         }
         _ => {
-            h.insert("cid".to_owned(), "x".to_owned());
+            h.insert("cid".into(), "x".to_owned());
         }
     }
     Some(h)
@@ -259,20 +259,20 @@ impl<const P: usize> Stream for ReplierStream<P> {
                 let mut h = HashMap::new();
                 let cid: u8 = match which {
                     0 => {
-                        h.insert("cid".to_owned(), "0".to_owned());
+                        h.insert("cid".into(), "0".to_owned());
                         0
                     }
                     1 => {
-                        h.insert("cid".to_owned(), "1".to_owned());
-                        h.insert("req_id".to_owned(), "5".to_owned());
+                        h.insert("cid".into(), "1".to_owned());
+                        h.insert("req_id".into(), "5".to_owned());
                         1
                     }
                     2 => {
-                        h.insert("cid".to_owned(), "7".to_owned());
+                        h.insert("cid".into(), "7".to_owned());
                         7
                     }
                     3 => {
-                        h.insert("cid".to_owned(), "x".to_owned());
+                        h.insert("cid".into(), "x".to_owned());
                         254
                     }
                     _ => 255,
